@@ -264,6 +264,29 @@ def deep_sxstr(o):
 
 
 # ----------------------------------------------------------------------------- request strings
+def char_sweep():
+    """every character a request string may contain, raw (1..255; NUL is excluded by the properties) and
+    percent-encoded (lower and upper hex)"""
+    for b in range(1, 256):
+        yield chr(b)
+    for b in range(1, 256):
+        yield "%%%02x" % b
+        if "%%%02x" % b != "%%%02X" % b:
+            yield "%%%02X" % b
+
+
+def pct_all(s):
+    """the same string with every character percent-encoded (three characters per character)"""
+    return "".join("%%%02x" % b for b in s.encode("utf-8"))
+
+
+def long_requests(base, limits=(255, 256, 257, 300, 1000, 4096, 4097)):
+    """legal spellings of `base` at and beyond every natural length limit: padded with a query string"""
+    for n in limits:
+        if n > len(base) + 1:
+            yield base + "?" + "q" * (n - len(base) - 1)
+
+
 def tokens_upto(alphabet, n):
     seen = set()
     for k in range(0, n + 1):
